@@ -160,7 +160,7 @@ func (p *parser) parseMessageText() (dataItem ast.ItemNode, ok bool) {
 	case formatCodeBinary:
 		values := make([]interface{}, length)
 		for i, v := range p.input[p.pos : p.pos+length] {
-			values[i] = v
+			values[i] = int(v)
 		}
 		p.pos += length
 		return ast.NewBinaryNode(values...), true
